@@ -205,6 +205,22 @@ def run_case(case):
                 dry = d
         if len(scripts) == 3 and not (scripts[0] == scripts[1] == scripts[2]):
             V("script-schedule-independent", "dry-run script differs between RAYON_NUM_THREADS 1/2/16: %s vs %s" % (scripts[0][:4], [s_ for s_ in scripts[1:] if s_ != scripts[0]][0][:4]))
+        if dry is not None and not viol and case["i"] % 3 == 0:
+            # the same dry run with -o FILE, FILE being what an earlier, wider dry run left there (longer, older):
+            # the file must then hold this run's script and nothing else
+            of = os.path.join(rd.scratch, "dry-out.sh")
+            with open(of, "wb") as f_:
+                f_.write(dry.out + b"".join(b"rm /nonexistent/earlier-run/%d\n" % k_ for k_ in range(1 + case["i"] % 7)))
+            os.utime(of, ns=(T0_NS - 10**12, T0_NS - 10**12))
+            d = ops.dedupe(rd, op, g.out, extra=case["dargs"] + ["--dry-run", "-o", of], target=target, env=env, now_ns=later,
+                           seed=case["seam_seed"] + 1, threads_env=1)
+            if d.rc != 0:
+                V("dry-run-succeeds", "dry run with -o failed rc=%s" % d.rc, d)
+            else:
+                cmds, err = tokenise(open(of, "rb").read())
+                if script_ops(cmds, origs) != scripts[0]:
+                    V("script-file-equals-stdout", "dry run with -o FILE (FILE existed, longer) left a script in FILE that differs from the one printed to stdout: %s vs %s" % (
+                        script_ops(cmds, origs)[-4:], scripts[0][-4:]), d)
         nops = 0
         if dry is not None and not viol:
             sops = scripts[0]
